@@ -17,6 +17,9 @@ def plan(tier, seed):
     cspecs = [(1, 4), (2, 4), (3, 3), (4, 2)] if tier == 'quick' else [(1, 5), (2, 5), (3, 4), (4, 3), (5, 2)]
     chunks = sweep.shape_chunks(bspecs, per_chunk=24, kind='bin')
     chunks += sweep.shape_chunks(cspecs, per_chunk=30, kind='col')
+    cn, cu = (4, 2) if tier == 'quick' else (5, 2)
+    total = sum(1 for m in range(1, cn + 1) for _ in model.shapes_with_unary(m, cu, continuous=True))
+    chunks += [{'kind': 'cli', 'n': cn, 'u': cu, 'lo': lo, 'hi': min(total, lo + 150)} for lo in range(0, total, 150)]
     return {
         'chunks': chunks,
         'rule': 'binarize: every hierarchy over n tokens (arity up to n, discontinuous included, <= u unary) x '
@@ -24,8 +27,8 @@ def plan(tier, seed):
                 'reference; unmarked trees must be rejected iff some node has > 2 children. collapse: every '
                 'hierarchy with <= u unary insertions at every position (chains up to u+1 labels at the root, in '
                 'the middle, above tokens), collapse compared with the reference, uncollapse must return the root '
-                'of the original tree. non-trivial = distinct cases with a node of arity > 2 (bin) / a unary '
-                'node (col)',
+                'of the original tree; the same three programs (collapse, uncollapse of the reference-collapsed trees, collapse+uncollapse) through `treetools transform` on bracketed corpora of every continuous hierarchy up to n = %d with <= 2 unary nodes. non-trivial = distinct cases with a node of arity > 2 (bin) / a unary '
+                'node (col)' % (4 if tier == 'quick' else 5),
         'bound': 'bin: ' + ', '.join('n=%d:u<=%d' % s for s in bspecs) + '; col: ' + ', '.join('n=%d:u<=%d' % s for s in cspecs),
         'exhaustive': True,
         'assumptions': ['labels contain no + and do not start with @',
@@ -200,8 +203,66 @@ def check_col(mtj, order=None):
     return out
 
 
+def check_cli(n, u, lo, hi):
+    """Collapsing / uncollapsing through `treetools transform` on bracketed corpora holding every continuous
+    hierarchy over <= n tokens with <= u unary nodes (slice lo:hi), chains at the root included."""
+    import os
+    from .. import codecs, cli
+    from ..runner import scratch
+    mts = []
+    for m in range(1, n + 1):
+        for sh, k in model.shapes_with_unary(m, u, continuous=True):
+            mts.append(model.simple_mt(sh, sid=len(mts) + 1, labels='path'))
+    mts = mts[lo:hi]
+    for i, mt in enumerate(mts):
+        mt.sid = i + 1
+    case = {'cli': True, 'n': n, 'u': u, 'lo': lo, 'hi': hi}
+    out = []
+
+    def bad(kind, program, detail):
+        out.append({'kind': kind, 'where': 'transform --trans ' + ' '.join(program), 'case': case, 'detail': detail,
+                    'what': 'collapse/uncollapse through the command line: ' + kind})
+    collapsed = []
+    for mt in mts:
+        r, pos = ref_collapse(mt)
+        collapsed.append(None if isinstance(r, int) else
+                         model.MT(mt.sid, [dict(tk, pos=p) for tk, p in zip(mt.toks, pos)], r))
+    keep = [i for i, c in enumerate(collapsed) if c is not None]
+    runs = [(['collapse_unary_chains', 'uncollapse_unary_chains'], mts, mts),
+            (['uncollapse_unary_chains'], [collapsed[i] for i in keep], [mts[i] for i in keep]),
+            (['collapse_unary_chains'], [mts[i] for i in keep], [collapsed[i] for i in keep])]
+    src = os.path.join(scratch(), 'c14.mrg')
+    dest = os.path.join(scratch(), 'c14.out')
+    for program, source, want in runs:
+        if not source:
+            continue
+        with open(src, 'w', encoding='utf-8') as f:
+            f.write(codecs.encode_brackets(source))
+        st, so, se, exc = cli.run(['transform', src, dest, '--src-format', 'brackets', '--dest-format', 'brackets',
+                                   '--trans'] + program)
+        if st != 0:
+            bad('cli-failed', program, 'exit status %r %s' % (st, cli.describe(exc)))
+            continue
+        try:
+            got = codecs.decode_brackets(open(dest, encoding='utf-8').read())
+        except codecs.DecodeError as e:
+            bad('undecodable', program, str(e))
+            continue
+        if len(got) != len(want):
+            bad('tree-count', program, '%d trees written for %d sentences' % (len(got), len(want)))
+            continue
+        for w, inp, (groot, gtoks) in zip(want, source, got):
+            g = model.MT(None, [dict(x, lemma=None, morph=None, edge=None) for x in gtoks], model.canon_mt(groot))
+            d = mt_equal(w, g, tok_fields=('word', 'pos'), edges=False)
+            if d:
+                bad('cli-mismatch', program, 'input %s: %s' % (model.mt_str(inp.root, inp.toks), d))
+    return out, len(mts)
+
+
 def check_case(case):
     with quiet():
+        if case.get('cli'):
+            return check_cli(case['n'], case['u'], case['lo'], case['hi'])[0]
         if 'bin' in case:
             return check_bin(case['bin'], case['bare'], case['marked'], case.get('order'))
         return check_col(case['col'], case.get('order'))
@@ -211,7 +272,16 @@ def run_chunk(chunk):
     res = Result()
     with quiet():
         idx = 0
-        if chunk['kind'] == 'bin':
+        if chunk['kind'] == 'cli':
+            vs, cnt = check_cli(chunk['n'], chunk['u'], chunk['lo'], chunk['hi'])
+            res.evals += 3 * cnt
+            res.nontrivial += 3 * cnt
+            res.outcome(('cli', chunk['lo'], len(vs)))
+            for v in vs:
+                res.violation(v['kind'], v['where'], v['case'], v['detail'], v['what'])
+            res.sample({'cli': 'treetools transform SRC DEST --src-format brackets --dest-format brackets --trans '
+                               '[collapse_unary_chains] [uncollapse_unary_chains]', 'sentences': cnt})
+        elif chunk['kind'] == 'bin':
             for sh, k in sweep.iter_shapes(chunk):
                 big = model.max_arity_of(sh) > 2
                 first = True
